@@ -268,7 +268,7 @@ func RunC17(tier string) {
 	schR, ptsR, outR, exhR, _ := Apply(run, repR, "C17", nil)
 	run.Set("race_oracle", map[string]interface{}{"schedules": schR, "scheduling_points": ptsR, "distinct_outcomes": outR, "exhaustive_within_bounds": exhR,
 		"access_reports_inserted": repR.Inventory["race-oracle access reports"],
-		"how": "vsr flavour: the rewriter additionally inserts a report for every field / map / slice-element access of internal/pfcp and internal/forwarder/perio; vsched keeps vector clocks (edges: go statement, channel send->receive, close->receive, AfterFunc->callback) and flags two accesses to one location, one of them a write, with no happens-before path, in every explored schedule"})
+		"how":                     "vsr flavour: the rewriter additionally inserts a report for every field / map / slice-element access of internal/pfcp and internal/forwarder/perio; vsched keeps vector clocks (edges: go statement, channel send->receive, close->receive, AfterFunc->callback) and flags two accesses to one location, one of them a write, with no happens-before path, in every explored schedule"})
 	sch, pts, out, exh = sch+schR, pts+ptsR, out+outR, exh && exhR
 	run.Set("states", sch)
 	run.Set("transitions", pts)
